@@ -322,6 +322,9 @@ def run_property(pid, tier, seed, replay=None):
     spec = props.PROPS[pid]
     t0 = time.time()
     ctx = Ctx(pid, tier, seed)
+    if not replay:
+        for old in glob.glob(os.path.join(EVID, "replay", pid + "-*.case")):
+            os.remove(old)
     module = "RSVerif.Properties." + pid
     module_file = "RSVerif/Properties/%s.lean" % pid
     broken = []     # proof obligations / ties that no longer check
